@@ -36,21 +36,63 @@ def run(tier, replay=None):
     for f in res["failures"]:
         ck.failure(f["signature"], f["what"], {"input": f["input"]})
 
+    # many goroutines through ONE middleware instance per transport, under the race detector
+    race_requests = 0
+    if not replay:
+        try:
+            rbin = ck.go_build("c19", race=True)
+            env = dict(vcheck.goenv(), GORACE="halt_on_error=1 exitcode=66")
+            rc2, out2 = sh([rbin, "-only", "concurrent", "-out", ck.work], timeout=900, env=env)
+            if rc2 == 66 or "DATA RACE" in out2:
+                ck.failure("concurrent-requests-data-race",
+                           "data race between concurrent requests inside the request-id / trace middlewares (identifiers of one request can reach another): " + out2[:600],
+                           {"input": {"stream": "concurrent"}, "race_report": out2[:4000]})
+            elif rc2 != 0:
+                raise RuntimeError("race-enabled harness c19 failed (rc %d): %s" % (rc2, out2[-2000:]))
+            else:
+                r2 = json.load(open(os.path.join(ck.work, "result_concurrent.json")))
+                race_requests = r2["evaluations"]
+                for f in r2["failures"]:
+                    ck.failure(f["signature"], f["what"], {"input": f["input"]})
+        except vcheck.BuildError as ex:
+            ck.notes.append("race-enabled build of the harness not available, concurrent stream ran without the race detector only: %s" % str(ex)[:300])
+
     mism = {}
     if ck.coq_ok:
         hdr = "From Middleware Require Import Model Run.\nOpen Scope N_scope."
-        # the streams are independent: evaluate them side by side (each is sharded over the cores)
+        # the streams are independent: in the quick tier evaluate them side by side (each is
+        # sharded over the cores); in the thorough tier one after the other with small
+        # shards (a 1 MB case file costs coqc about 1 GB)
         from concurrent.futures import ThreadPoolExecutor
 
         def one(st):
             name, fname, typ, fn, _ = st
             lines = [l for l in open(os.path.join(ck.work, fname)).read().splitlines() if l.strip()]
-            shards = 16 if name in ("rid", "trace") else 6
-            return name, ck.coq_eval_cases(lines, hdr, typ, fn, shards=min(shards, max(1, len(lines))), tag=name)
-        with ThreadPoolExecutor(max_workers=len(STREAMS)) as ex:
-            for name, m in ex.map(one, STREAMS):
+            if not lines:
+                return name, []
+            size = sum(len(l) for l in lines)
+            shards = max(16 if name in ("rid", "trace") else 6, size // 150000 + 1)
+            shards = min(shards, len(lines))
+            for attempt in (1, 2):
+                m = ck.coq_eval_cases(lines, hdr, typ, fn, shards=shards, tag=name)
                 if m is not None:
-                    mism[name] = m
+                    return name, m
+                killed = ck.coq_error.startswith(name + "_") and ck.coq_error.rstrip().endswith("did not evaluate:")
+                if attempt == 1 and killed:
+                    # coqc died without a message (killed under memory pressure): once more, smaller shards
+                    ck.notes.append("stream %s: a coqc process was killed without output; evaluated again" % name)
+                    ck.coq_ok, ck.coq_error = True, ""
+                    shards = min(len(lines), shards * 2)
+                    continue
+                return name, None
+        if tier == "quick":
+            with ThreadPoolExecutor(max_workers=len(STREAMS)) as ex:
+                results = list(ex.map(one, STREAMS))
+        else:
+            results = [one(st) for st in STREAMS]
+        for name, m in results:
+            if m is not None:
+                mism[name] = m
     total_mism = sum(len(v) for v in mism.values())
     if not ck.coq_ok:
         if not ck.violations:
@@ -69,7 +111,7 @@ def run(tier, replay=None):
                     ", ".join("%d %s case(s)" % (len(v), k) for k, v in mism.items() if v),
                     {"broken": "correspondence " + rel, "input": first,
                      "mismatching_case_indexes": {k: v[:50] for k, v in mism.items() if v}})
-    cov = {"evaluations": res["evaluations"], "distinct_nontrivial": res["distinct_nontrivial"], "rule": res["rule"],
+    cov = {"evaluations": res["evaluations"] + race_requests, "requests_under_race_detector": race_requests, "distinct_nontrivial": res["distinct_nontrivial"], "rule": res["rule"],
            "samples": res["samples"], "distribution": res["distribution"], "streams": res.get("extra", {}).get("streams"),
            "model_mismatches": total_mism if ck.coq_ok else None,
            "exhaustive": False}
